@@ -80,7 +80,7 @@ pub fn signature(c: &MultiCase) -> Option<&'static str> {
     for o in &c.ops {
         match o {
             MOp::SetAlignment(true) => bottom_seen = true,
-            MOp::Drop(_) | MOp::MpClear | MOp::MpSuspend(_) | MOp::BarSuspend(..) | MOp::MpPrintln(_) | MOp::BarPrintln(..) if bottom_seen => bottom = true,
+            MOp::Drop(_) | MOp::MpClear | MOp::MpSuspend(_) | MOp::BarSuspend(..) | MOp::MpPrintln(_) | MOp::BarPrintln(..) | MOp::BarPrintlnUnwinding(..) if bottom_seen => bottom = true,
             _ => {}
         }
     }
@@ -214,13 +214,26 @@ fn run_threads(c: &ThreadsCase) -> CaseResult {
                 });
             }
         });
-        // a final forced draw of every bar
+    });
+    r.map_err(|p| Fail::new("panic", format!("concurrent updates panicked: {p}")))?;
+    let mut frames = vt.take_frames();
+    if c.hz.is_none() {
+        // no limiter: every set_message is a draw, so once all threads are done the last frame already
+        // shows every bar's final state - no update may have been dropped on the way
+        let fr = frames.last().ok_or_else(|| Fail::new("no_frame", "no frame was painted at all"))?;
+        let shown = parse_frame(&fr.rows).map_err(|e| Fail::new("frame_shape", format!("last frame: {e}")))?;
+        for t in 0..n {
+            ensure!(shown.get(&t) == Some(&(updates, updates)), "update_lost", "all {n} threads are done ({updates} updates each, unlimited target) and the last frame shows {:?} for bar T{t}; its final state is ({updates},{updates})", shown.get(&t));
+        }
+    }
+    // a final forced draw of every bar
+    catch(|| {
         for pb in &bars {
             pb.force_draw();
         }
-    });
-    r.map_err(|p| Fail::new("panic", format!("concurrent updates panicked: {p}")))?;
-    let frames = vt.take_frames();
+    })
+    .map_err(|p| Fail::new("panic", format!("force_draw panicked: {p}")))?;
+    frames.extend(vt.take_frames());
     let mut last: HashMap<usize, (u64, u64)> = HashMap::new();
     let mut order_ok = true;
     for (k, fr) in frames.iter().enumerate() {
@@ -292,7 +305,7 @@ pub fn property() -> Property {
             }),
             Box::new(Gen::<ThreadsCase> {
                 name: "threads",
-                rule: "2-8 real threads, each owning one bar of a shared MultiProgress and issuing set_position(k); set_message(k) for k = 1..updates; every recorded frame must show each bar once, in add order, in a state it really had (pos == msg or msg+1), never older than before; the last frame after a forced draw shows the final states",
+                rule: "2-8 real threads, each owning one bar of a shared MultiProgress and issuing set_position(k); set_message(k) for k = 1..updates; every recorded frame must show each bar once, in add order, in a state it really had (pos == msg or msg+1), never older than before; on an unlimited target the last frame painted by the threads themselves already shows every final state (no update dropped), and the last frame after a forced draw shows the final states",
                 strategy: |t| {
                     (2u8..=8, 20u16..t.pick(400, 3000), proptest::option::of(prop_oneof![Just(1u8), Just(20), Just(255)]), 0u8..8)
                         .prop_map(|(threads, updates, hz, yield_every)| ThreadsCase { threads, updates, hz, yield_every })
